@@ -4,6 +4,6 @@ Require Extraction.
 Require ExtrOcamlBasic.
 From GS Require Import Port.
 Extraction Language OCaml.
-Extraction "gsmodel.ml"
+Extraction "m_c20.ml"
   validate_port vres_class vres_str roundtrip_okb split_host_port norm_colon atoi
   str_eqb class_pinned.
